@@ -552,4 +552,22 @@ def r8_action_contract(a, tier):
     return rep
 
 
-RULES = [r1_action_on_success, r2_lookup_order, r3_failure_conversion, r4_transparency, r5_decorators, r6_per_parse_state, r7_nomemo_gate, r8_action_contract]
+def r9_semantics_not_shared(a, tier):
+    """the actions that run are those of the object that was supplied: compile() shares models through a cache and stores the semantics
+    on the shared model, so the semantics object must be part of the cache key (= C10.R1; the known findings of C10 about the settings and
+    the builder options are C10's)"""
+    from . import c10
+    src = c10.r1_cache_key(a, tier)
+    rep = RuleReport('C06.R9', '[= C10.R1, the stored-parameter clause for `semantics`] ' + src.text, floor=1)
+    rep.instances = [i for i in src.instances if isinstance(i, dict) and 'stored_on_the_cached_object' in i]
+    for f in src.findings:
+        if f.key.startswith('key-misses-stored:') or f.key in ('id-key:semantics',):
+            f.rule = 'C06.R9'
+            rep.findings.append(f)
+    if not rep.instances:
+        rep.notes.append('compile() stores no parameter on a cached object')
+        rep.instances = [{'stored_on_the_cached_object': None}]
+    return rep
+
+
+RULES = [r1_action_on_success, r2_lookup_order, r3_failure_conversion, r4_transparency, r5_decorators, r6_per_parse_state, r7_nomemo_gate, r8_action_contract, r9_semantics_not_shared]
